@@ -119,7 +119,24 @@ var prods = []prod{
 	{"paren_table", T, T, "(", ")", ""},
 	{"derived", T, Q, "(", ") d", ""},
 	{"lateral_derived", T, Q, "LATERAL (", ") d", ""},
+	// Forms the parser does not accept today (the documentation lists several of them as
+	// supported; see C03's open findings). While they are rejected at depth 2 the family is
+	// skipped and listed; the day one of them is accepted its towers are held to the limit
+	// like every other production.
+	{"future_derived_with_clause", Q, Q, "SELECT * FROM (WITH w AS (SELECT 1) ", ") d", ""},
+	{"future_derived_with_clause_in_join", Q, Q, "SELECT * FROM t JOIN (WITH w AS (SELECT 1) ", ") d ON 1 = 1", ""},
+	{"future_derived_union_left", Q, Q, "SELECT * FROM (", " UNION SELECT 1) d", ""},
+	{"future_derived_paren_query", Q, Q, "SELECT * FROM ((", ")) d", ""},
+	{"future_grouping_function", E, E, "GROUPING(", ")", ""},
+	{"future_is_true_of_paren", E, E, "(", ") IS TRUE", ""},
+	{"future_select_top", Q, E, "SELECT TOP (", ") a FROM t", "place"},
+	{"future_table_function", Q, E, "SELECT * FROM generate_series(1, ", ") g", "place"},
+	{"future_values_derived", Q, E, "SELECT * FROM (VALUES (", ")) v", "place"},
+	{"future_in_tuple_subquery", E, Q, "(a, b) IN (", ")", ""},
+	{"future_array_subquery", E, Q, "ARRAY(", ")", ""},
 }
+
+func future(p prod) bool { return strings.HasPrefix(p.Name, "future_") }
 
 // top-level contexts: a statement with one hole
 var tops = []prod{
@@ -484,13 +501,13 @@ func TestNestingMixed(t *testing.T) {
 		for i := 0; i < n || (repeat && cur != start); i++ {
 			var cands []int
 			for pi, p := range prods {
-				if p.In == cur && !(repeat && i >= n && p.Out != start) {
+				if p.In == cur && !(repeat && i >= n && p.Out != start) && !future(p) {
 					cands = append(cands, pi)
 				}
 			}
 			if len(cands) == 0 { // closing the cycle needs an intermediate kind
 				for pi, p := range prods {
-					if p.In == cur && p.Out != cur {
+					if p.In == cur && p.Out != cur && !future(p) {
 						cands = append(cands, pi)
 					}
 				}
